@@ -17,7 +17,7 @@ ALTS = [
     A("alt-pool-queue-16w", ["C08", "C12"],
       ("flyt.go", "tasks:   make(chan func(), workers*2),", "tasks:   make(chan func(), workers*16),"),
       why="no queue capacity is promised"),
-    A("alt-stop-mode-returns-batcherror-after-post", ["C06", "C07", "C08", "C09", "C11", "C04"],
+    A("alt-stop-mode-returns-batcherror-after-post", ["C06", "C07", "C08", "C09", "C11", "C04", "C19"],
       ("batch.go", '''	if action == "" {
 		action = DefaultAction
 	}
@@ -185,7 +185,7 @@ func runExecWithRetriesStop(ctx context.Context, node Node, item Result, stopped
 
 			mu.Lock()'''),
       why="once a stop-on-error batch is stopped, in-flight items may lose their remaining retries (C09 only says they can still run)"),
-    A("alt-prompt-cancel-returns-ctx-error-without-joining", ["C11", "C06", "C09", "C07"],
+    A("alt-prompt-cancel-returns-ctx-error-without-joining", ["C11", "C06", "C09", "C07", "C20"],
       ("batch.go", '''	pool.Wait()
 }''', '''	waited := make(chan struct{})
 	go func() { pool.Wait(); close(waited) }()
